@@ -149,8 +149,51 @@ def ogg_foreign_paging(ctx):
                               "an edit that fits %d bytes of padding resized the file under the default policy (%d -> %d bytes)" % (pad, len(data), len(out)), case)
 
 
+def format_maximum(ctx):
+    """a padding answer beyond what the format can express: "capped only by the format's maximum block size" — the save
+    succeeds with the padding capped (or raises MutagenError); no other exception.  ID3: the 28-bit size field
+    (256 MiB - 1); FLAC: 2^24 - 1."""
+    from mutagen import MutagenError
+    from mutagen.id3 import ID3, TIT2
+    from mutagen.flac import FLAC
+    audio = b"\xff\xfb\x90\x64" + b"\0" * 413
+    for label, want in (("id3:2^28", 2 ** 28), ("id3:2^28+5", 2 ** 28 + 5), ("flac:2^24", 2 ** 24), ("flac:2^31", 2 ** 31)):
+        case = {"format": label.split(":")[0], "requested_padding": want}
+        ctx.case(key=("format-maximum", label), nontrivial=True, modelled=False, sample=case if label == "id3:2^28" else None)
+        ctx.hist["format-maximum:" + label] += 1
+        if label.startswith("id3"):
+            t = ID3(); t.add(TIT2(encoding=3, text=["x"]))
+            f = io.BytesIO(audio)
+            go = lambda: t.save(f, padding=lambda info: want)
+        else:
+            f = io.BytesIO(F.sample_bytes(ctx.repo, "silence-44-s.flac"))
+            t = FLAC(f); t["title"] = ["x"]; f.seek(0)
+            go = lambda: t.save(f, padding=lambda info: want)
+        k, r = timed(go, 120)
+        if k == "hang":
+            ctx.violation("format-maximum:hang:" + label, "did not finish", case); continue
+        if k == "exc":
+            if not isinstance(r, MutagenError):
+                ctx.violation("format-maximum:escape:%s:%s" % (label.split(":")[0], type(r).__name__),
+                              "a padding answer of %d made save raise %s: %s" % (want, type(r).__name__, r), case)
+            continue
+        out = f.getvalue()
+        if label.startswith("id3"):
+            size = (out[6] << 21) | (out[7] << 14) | (out[8] << 7) | out[9]
+            body = out[10:10 + size]
+            pad = len(body) - len(body.rstrip(b"\0"))
+            if out[:3] != b"ID3" or any(b & 0x80 for b in out[6:10]) or out[10 + size:] != audio or size != 2 ** 28 - 1 or pad < 2 ** 28 - 1 - 64:
+                ctx.violation("format-maximum:id3:not-capped", "size field %d, padding %d, %d bytes follow" % (size, pad, len(out) - 10 - size), case)
+        else:
+            w = walkers.walk("FLAC", out)
+            if w.errors or w.padding != 2 ** 24 - 1:
+                ctx.violation("format-maximum:flac:not-capped", "padding %r, walker errors %r" % (w.padding, w.errors[:2]), case)
+        del out
+
+
 def run(ctx):
     containers.run_histories(ctx, {"padding"}, RULE + RULE_EXTRA)
+    format_maximum(ctx)
     flac_deleteid3(ctx)
     ogg_foreign_paging(ctx)
     id3file_tie.run(ctx)
